@@ -366,19 +366,23 @@ Section Block.
   Definition block_timer_ms (timeout_s : Z) : Z :=
     if timeout_s =? 0 then 9223372036854 else 1000 * timeout_s.
 
-  (* result (None = timed out), end instant, remaining actions, state, outputs so far.
-     At the instant where the last tick and the timer coincide Go's select may take either
-     branch; here the timer wins (they differ only for an element that arrives during the last
-     100 ms of the timeout). *)
-  Definition block (t0 timeout_s : Z) (evs : list bev) (s : S)
+  (* [nticks] ticks strictly before the timer, which fires [timer_ms] after t0.
+     result (None = the timer fired), end instant, remaining actions, state, outputs so far.
+     At an instant where a tick and the timer coincide Go's select may take either branch; here
+     the timer wins (they differ only for an element that arrives during the last 100 ms). *)
+  Definition block_n (t0 : Z) (nticks : positive) (timer_ms : Z) (evs : list bev) (s : S)
     : option R * Z * list bev * S * list O :=
-    match iter_until (block_ticks timeout_s) (btick t0) (mkBst 0 evs s []) with
+    match iter_until nticks (btick t0) (mkBst 0 evs s []) with
     | inl (r, st) => (Some r, t0 + 100 * b_tick st, b_evs st, b_s st, b_out st)
     | inr st =>
-      let tend := t0 + block_timer_ms timeout_s in
+      let tend := t0 + timer_ms in
       let '(evs', s', os) := run_due tend (b_evs st) (b_s st) in
       (None, tend, evs', s', b_out st ++ os)
     end.
+
+  Definition block (t0 timeout_s : Z) (evs : list bev) (s : S)
+    : option R * Z * list bev * S * list O :=
+    block_n t0 (block_ticks timeout_s) (block_timer_ms timeout_s) evs s.
 End Block.
 
 (* argument vector of BLPOP/BRPOP: keys and timeout in whole seconds *)
